@@ -35,13 +35,22 @@ class Bounded:
         self.needs_ext = needs_ext   # the stand-in runs against the C++ extensions rebuilt from /repo's current sources ($PYVC_EXT_DIR)
 
 
-def load_modules():
+def load_modules(pid=None):
+    """imports every contract module; a module that fails to import (e.g. the function it is anchored in no longer exists) is a
+    checker error for exactly the properties its text mentions, not for every property."""
     mods = []
     for fn in sorted(glob.glob(os.path.join(ROOT, "contracts", "*.py"))):
         nm = os.path.basename(fn)[:-3]
         if nm.startswith("_"):
             continue
-        mods.append(importlib.import_module("contracts." + nm))
+        try:
+            mods.append(importlib.import_module("contracts." + nm))
+        except Exception:
+            with open(fn) as fh:
+                text = fh.read()
+            if pid is None or ('"%s"' % pid) in text:
+                raise
+            sys.stderr.write("note: contracts/%s.py failed to import (does not mention %s): %s\n" % (nm, pid, traceback.format_exc().splitlines()[-1]))
     return mods
 
 
@@ -144,7 +153,7 @@ def run_property(pid, tier="quick", seed=0, jobs=None, only=None):
     _TIER, _SEED = tier, seed
     _KNOWN = [k for k in load_known() if k.get("property") == pid]
     t0 = time.time()
-    mods = load_modules()
+    mods = load_modules(pid)
     tasks = []
     for mod in mods:
         for ci, c in enumerate(getattr(mod, "CONTRACTS", [])):
